@@ -1967,6 +1967,15 @@ class QuicConnection:
                 )
             )
             self._peer_cid_sequence_numbers.add(sequence_number)
+        elif (
+            sequence_number < self._peer_retire_prior_to
+            and sequence_number not in self._peer_cid_sequence_numbers
+        ):
+            # The peer already asked us to retire this connection ID, in a frame
+            # which overtook this one: announce its retirement at once
+            # (RFC 9000 section 5.1.2).
+            self._peer_cid_sequence_numbers.add(sequence_number)
+            self._retire_connection_ids.append(sequence_number)
 
         # retire previous CIDs
         for quic_connection_id in retire:
